@@ -85,6 +85,11 @@ def run(req):
                         _w.simplefilter("ignore")
                         jt.jaxtyped(typechecker=None)(_gen)
                     y = pickle.loads(blob)
+                elif route == "resend3":
+                    # sent on three times (pickle, cloudpickle, pickle): what arrives is pickled again, never the original
+                    y = pickle.loads(pickle.dumps(ann))
+                    y = cloudpickle.loads(cloudpickle.dumps(y))
+                    y = pickle.loads(pickle.dumps(copy.deepcopy(y)))
                 elif route == "copy":
                     y = copy.copy(ann)
                 elif route == "deepcopy":
